@@ -171,6 +171,7 @@ def run(chk: Check):
         chk.count(f"shape:{nrows}x{ncols}")
 
     answers = lean_run(reqs)
+    grid_buffers = {}
     for (kind, grid, vals), ans in zip(meta, answers):
         if kind == "digitize":
             grids, data = grid, vals
@@ -192,6 +193,13 @@ def run(chk: Check):
                 chk.disagree("digitize_data != BlackIt.Snap.digitize", {"request": reqs[0][:0] + "snap.digitize ...",
                              "impl": impl[:400], "model": ans[:400], "grids": [g.tolist() for g in grids], "data": data.tolist()})
             continue
+        # the caller may keep ONE array for its grid and refill it in place between calls (same object, new sorted contents)
+        if len(grid) in grid_buffers and rng.random() < 0.6:
+            grid_buffers[len(grid)][:] = grid
+            grid = grid_buffers[len(grid)]
+            chk.count("grid_object:refilled_in_place")
+        else:
+            grid_buffers[len(grid)] = grid
         # "acts element-wise on arrays": the same values as a 1-d, 2-d or 3-d array (and as a non-contiguous view) must give the same results
         shaped = vals.copy()
         how = rng.choice(["1d", "1d", "2d", "3d", "strided"])
